@@ -12,7 +12,10 @@
     [st_issued] is a ghost: every value the chain ever PUBLISHED FOR SIGNING, through any channel:
     stored as a batch's BytesToSign (build, re-estimate) or handed out by one of the batch queries
     (LastPendingBatchRequestByAddr, OutgoingTxBatches, BatchRequestByNonce,
-    LastPendingBatchForGasEstimation -- where relayers read what to sign; [OQuery]).
+    LastPendingBatchForGasEstimation -- where relayers read what to sign; [OQuery]) -- by the chain
+    instance that is running: a genesis export / import ([OGenesis]) starts a new instance, whose
+    [st_issued] is what it shows from its first block on (the imported batches' BytesToSign).
+    [st_ever] is the same ghost never reset: everything any instance ever published.
 
     Which functions archive what they publish, and whether the evidence handler looks at the
     archive, comes from the translated source (Gen.C13), so the theorems are about the code as it
@@ -32,8 +35,9 @@ Record cfg := {
   c_set_once : bool;            (* UpdateBatchGasEstimate refuses when GasEstimate > 0 *)
   c_queries_stored : bool;      (* every batch query serves the stored record untouched (else: BytesToSign
                                    recomputed for the deployment id in force at query time) *)
-  c_confirm_recomputes : bool   (* ConfirmBatch verifies against GetCheckpoint(id in force now), not the
+  c_confirm_recomputes : bool;  (* ConfirmBatch verifies against GetCheckpoint(id in force now), not the
                                    stored BytesToSign *)
+  c_genesis_archives_live : bool (* InitGenesis archives the BytesToSign of every batch it imports *)
 }.
 
 Definition code_cfg : cfg := {|
@@ -42,7 +46,8 @@ Definition code_cfg : cfg := {|
   c_rejects_archived := Gen.C13.evidence_rejects_archived;
   c_set_once := Gen.C13.estimate_set_once;
   c_queries_stored := Gen.C13.queries_serve_stored;
-  c_confirm_recomputes := Gen.C13.confirm_verifies_recomputed |}.
+  c_confirm_recomputes := Gen.C13.confirm_verifies_recomputed;
+  c_genesis_archives_live := Gen.C13.genesis_archives_live |}.
 
 (** The estimate that GetCheckpoint packs: the dummy when GasEstimate = 0. *)
 Definition eff_est (e : Z) : Z := if e =? 0 then Gen.C13.dummy_gas_estimate else e.
@@ -53,13 +58,14 @@ Record state := {
   st_chains : list (Z * Z);            (* chain reference id -> SmartContractUniqueID in force *)
   st_batches : list batch;             (* OutgoingTXBatchKey store *)
   st_archive : list Z;                 (* PastEthSignatureCheckpointKey set *)
-  st_issued : list Z;                  (* ghost: every BytesToSign ever stored *)
+  st_issued : list Z;                  (* ghost: published for signing by the running chain instance *)
+  st_ever : list Z;                    (* ghost: published for signing by any instance, ever *)
   st_reg : list (Z * val * addr);      (* (chain, validator, registered remote address), in lookup order *)
   st_jailed : list val                 (* staking jailed flags *)
 }.
 
 Definition init : state :=
-  {| st_chains := []; st_batches := []; st_archive := []; st_issued := []; st_reg := []; st_jailed := [] |}.
+  {| st_chains := []; st_batches := []; st_archive := []; st_issued := []; st_ever := []; st_reg := []; st_jailed := [] |}.
 
 Inductive res := ROk | RErrChain | RErrExists | RErrNotFound | RErrAlreadySet | RErrArchived | RErrSig | RErrNoVal.
 
@@ -106,7 +112,8 @@ Section Model.
   | OSetReg (reg : list (Z * val * addr))(* validators change their external chain infos *)
   | OUnjail (v : val)
   | OEvidence (chain body est : Z) (sg : Sig)   (* MsgSubmitBadSignatureEvidence, by anyone *)
-  | OQuery (key : Z).                    (* a relayer reads batch [key] through one of the batch queries *)
+  | OQuery (key : Z)                     (* a relayer reads batch [key] through one of the batch queries *)
+  | OGenesis.                            (* ExportGenesis, chain restarted with InitGenesis on an empty store *)
 
   (** The checkpoint of a stored batch under the deployment id in force NOW (what ConfirmBatch
       computes; [None]: chain unknown). *)
@@ -132,13 +139,14 @@ Section Model.
     | Some b => if c_confirm_recomputes g then current_cp s b else Some (b_bts b)
     end.
 
-  Definition with_batches (s : state) (bs : list batch) (arch iss : list Z) : state :=
-    {| st_chains := st_chains s; st_batches := bs; st_archive := arch; st_issued := iss;
-       st_reg := st_reg s; st_jailed := st_jailed s |}.
+  (** [pub]: what this operation publishes for signing (goes into both ghosts) *)
+  Definition with_batches (s : state) (bs : list batch) (arch : list Z) (pub : list Z) : state :=
+    {| st_chains := st_chains s; st_batches := bs; st_archive := arch; st_issued := pub ++ st_issued s;
+       st_ever := pub ++ st_ever s; st_reg := st_reg s; st_jailed := st_jailed s |}.
 
   Definition with_jailed (s : state) (j : list val) : state :=
     {| st_chains := st_chains s; st_batches := st_batches s; st_archive := st_archive s;
-       st_issued := st_issued s; st_reg := st_reg s; st_jailed := j |}.
+       st_issued := st_issued s; st_ever := st_ever s; st_reg := st_reg s; st_jailed := j |}.
 
   Definition exec (s : state) (o : op) : state * res :=
     match o with
@@ -152,7 +160,7 @@ Section Model.
           let c := cp tid body (eff_est 0) in
           (with_batches s ({| b_key := key; b_chain := chain; b_body := body; b_est := 0; b_bts := c |} :: st_batches s)
                         (if c_build_archives g then c :: st_archive s else st_archive s)
-                        (c :: st_issued s), ROk)
+                        [c], ROk)
         end
       end
     | OEstimate key est =>
@@ -167,20 +175,20 @@ Section Model.
                (with_batches s ({| b_key := key; b_chain := b_chain b; b_body := b_body b; b_est := est; b_bts := c |}
                                   :: remove_batch (st_batches s) key)
                              (if c_reissue_archives g then c :: st_archive s else st_archive s)
-                             (c :: st_issued s), ROk)
+                             [c], ROk)
              end
       end
     | ORemove key =>
       match find_batch (st_batches s) key with
       | None => (s, RErrNotFound)
-      | Some _ => (with_batches s (remove_batch (st_batches s) key) (st_archive s) (st_issued s), ROk)
+      | Some _ => (with_batches s (remove_batch (st_batches s) key) (st_archive s) [], ROk)
       end
     | OSetTid chain tid =>
       ({| st_chains := set_tid (st_chains s) chain tid; st_batches := st_batches s; st_archive := st_archive s;
-          st_issued := st_issued s; st_reg := st_reg s; st_jailed := st_jailed s |}, ROk)
+          st_issued := st_issued s; st_ever := st_ever s; st_reg := st_reg s; st_jailed := st_jailed s |}, ROk)
     | OSetReg reg =>
       ({| st_chains := st_chains s; st_batches := st_batches s; st_archive := st_archive s;
-          st_issued := st_issued s; st_reg := reg; st_jailed := st_jailed s |}, ROk)
+          st_issued := st_issued s; st_ever := st_ever s; st_reg := reg; st_jailed := st_jailed s |}, ROk)
     | OUnjail v => (with_jailed s (filter (fun u => negb (u =? v)) (st_jailed s)), ROk)
     | OEvidence chain body est sg =>
       match chain_tid (st_chains s) chain with
@@ -200,8 +208,16 @@ Section Model.
     | OQuery key =>
       match find_batch (st_batches s) key with
       | None => (s, RErrNotFound)
-      | Some b => (with_batches s (st_batches s) (st_archive s) (served s b :: st_issued s), ROk)
+      | Some b => (with_batches s (st_batches s) (st_archive s) [served s b], ROk)
       end
+    | OGenesis =>
+      (* the skyway store is rebuilt from the exported state: the batch records come back as they
+         were (BytesToSign included), the PastEthSignatureCheckpoint set is not part of the genesis
+         state; chain infos, registrations and jailed flags live in other modules' genesis *)
+      ({| st_chains := st_chains s; st_batches := st_batches s;
+          st_archive := if c_genesis_archives_live g then map b_bts (st_batches s) else [];
+          st_issued := map b_bts (st_batches s); st_ever := st_ever s;
+          st_reg := st_reg s; st_jailed := st_jailed s |}, ROk)
     end.
 
   Definition step (s : state) (o : op) : state := fst (exec s o).
